@@ -17,8 +17,9 @@ def main():
         lem = [a for a in args if a in lib.by_name]
     else:
         roots, lem = list(ex.functions), [it[0] for it in lib.items if it[1] == "proof"]
-    fns, items = extract.cone(ex, lib, roots, lem)
-    open(out, "w").write(ex.render(keep_fns=fns, lib_items=items, canary=bool(os.environ.get("CANARY")))[0])
+    deleg = [k for k in ex.functions if any(k.endswith(d) for d in os.environ.get("DELEGATE", "").split(",") if d)]
+    fns, items = extract.cone(ex, lib, roots, lem, stop_at=deleg)
+    open(out, "w").write(ex.render(keep_fns=fns, lib_items=items, canary=bool(os.environ.get("CANARY")), delegated=set(deleg))[0])
     t0 = time.time()
     p = subprocess.run(["verus", out, "--multiple-errors", "5", "--triggers-mode", "silent", "--rlimit", rlimit, "--output-json", "--time", "--num-threads", "16"],
                        capture_output=True, text=True, cwd="/var/tmp/vt")
